@@ -42,9 +42,8 @@ impl From<Limb> for BoxedUint {
 
 impl From<&[Limb]> for BoxedUint {
     fn from(limbs: &[Limb]) -> BoxedUint {
-        Self {
-            limbs: limbs.into(),
-        }
+        // `From<Vec<Limb>>` guarantees at least one limb.
+        limbs.to_vec().into()
     }
 }
 
